@@ -737,6 +737,43 @@ Definition eq_spec (a b : container) : bool :=
 Definition content_nan_free (c : container) : bool :=
   match c_content c with None => true | Some a => nan_free (a_data a) end.
 
+(* --- assignments.  An operation that asks the container to hold a given array (or nothing):
+     c.array = a, photon.array_3d = a, c.update(a), `c += a` / `c + a` on an EMPTY container,
+     detector.<bucket> = other   (the content of `other`; nothing when `other` is empty) *)
+Inductive asg := AsgArr (a : arr) | AsgEmpty.
+
+Definition assignment_of (k : ckind) (o : op) (before : option arr) : option asg :=
+  match o with
+  | OSet a => Some (AsgArr a)
+  | OSet3D a => if is_photon k then Some (AsgArr a) else None
+  | OUpdate (Some a) => if is_photon k then None else Some (AsgArr (as_numpy a))      (* np.asarray(data) *)
+  | OIAdd a | OAdd a => match before with None => Some (AsgArr a) | Some _ => None end
+  | ODAssign o' => match c_content o' with Some a => Some (AsgArr a) | None => Some AsgEmpty end
+  | _ => None
+  end.
+
+(* a legal content up to the sign of the values: element type, container type, shape, dims, coordinate
+   (negative photon counts are clipped by the setters, not refused) *)
+Definition arr_form_ok (k : ckind) (r c : nat) (a : arr) : bool :=
+  spec_allowed k (a_dt a)
+  && match a_xr a with
+     | None => shape_eqb (a_shape a) [r; c]
+     | Some xi =>
+         is_photon k && shape_eqb (x_dims xi) [0; 1; 2]
+         && match x_wl xi, a_shape a with
+            | Some _, [_; r'; c'] => Nat.eqb r' r && Nat.eqb c' c
+            | _, _ => false
+            end
+     end.
+
+(* what the container holds after a completed assignment of `a` *)
+Definition stored_form (k : ckind) (a : arr) : arr := if is_photon k then clip_arr a else a.
+
+(* same array: container type, dims/coordinates, shape, values (NaN matches NaN; element type not compared) *)
+Definition arr_same_values (a b : arr) : bool :=
+  opt_eqb xinfo_eqb (a_xr a) (a_xr b) && shape_eqb (a_shape a) (a_shape b)
+  && list_eqb cell_eqb (a_data a) (a_data b).
+
 (* the source tables are what the property needs: every TYPE_LIST inside the allowed set, every
    guard of the three validating functions present, both clips present, no raw detector setter, Photon += / +
    through the setters, == of the symmetric shape *)
@@ -754,8 +791,10 @@ Definition guards_ok (tb : tables) : bool :=
 (* Pixel.empty() stores float64 zeros; the setter run again by += must accept them *)
 Definition pixel_zeros_ok (tb : tables) : bool := dtype_mem F64 (type_list tb Pixel).
 
+(* ... and the dispatching shape (empty / 2-D / 3-D) is the photon setter's only *)
 Definition no_raw_setter (tb : tables) : bool :=
-  forallb (fun k => match det_setter tb k with SetterRaw => false | _ => true end) [Photon; Pixel; Signal; Image; Phase].
+  forallb (fun k => match det_setter tb k with SetterRaw => false | SetterDispatch => is_photon k | _ => true end)
+          [Photon; Pixel; Signal; Image; Phase].
 
 (* Photon += / + go through the validating setters on every branch *)
 Definition iadd_through_setters (tb : tables) : bool :=
@@ -867,7 +906,11 @@ Definition unmodelled (tb : tables) (cs : list ccase) : list nat := unmodelled_f
      3 read_empty     reading an empty container did not raise
      4 read_value     a successful read returned something else than the stored array, or changed it
      5 eq_spec        a comparison did not return (same kind & shape & (both empty | equal arrays))
-     6 reset          empty()/update(None)/detector.empty() completed and left data behind *)
+     6 reset          empty()/update(None)/detector.empty() completed and left data behind
+     7 must_reject    an assignment of an array that is no legal content (element type, container type, shape, dims,
+                      coordinate) did not raise
+     8 assign_stores  a completed assignment of a legal array left something else in the container than that array
+                      (photons: negatives clipped); a completed assignment of an EMPTY container left data behind *)
 
 Definition is_raise (o : outcome) : bool := match o with Raise _ => true | _ => false end.
 
@@ -887,6 +930,34 @@ Definition reset_ok (k : ckind) (o : op) (before after : option arr) : bool :=
   | ODEmpty false, Phase => true
   | (OEmpty | OUpdate None | ODEmpty _), _ => match after with None => true | Some _ => false end
   | _, _ => true
+  end.
+
+Definition all_zero (a : arr) : bool := forallb (cell_eqb (Fin 0)) (a_data a).
+
+(* The judge is a little more lenient than the theorems about the model: a DataArray handed to an ArrayBase bucket
+   is judged by its numpy form (an implementation that converted it with np.asarray instead of refusing it would
+   store a legal array: the property text does not call that a violation). *)
+Definition assignable (k : ckind) (r c : nat) (a : arr) : bool :=
+  arr_form_ok k r c a || (negb (is_photon k) && arr_form_ok k r c (as_numpy a)).
+
+Definition expected_store (k : ckind) (a : arr) : arr := if is_photon k then clip_arr a else as_numpy a.
+
+Definition assign_violations (k : ckind) (r c : nat) (o : op) (before : option arr) (ob : obs) : list nat :=
+  match assignment_of k o before with
+  | Some (AsgArr a) =>
+      if is_raise (o_out ob) then []
+      else if negb (assignable k r c a) then [7]
+      else match o_out ob, o_state ob with
+           | Done, Some s => if arr_same_values (expected_store k a) s then [] else [8]
+           | Done, None => [8]
+           | _, _ => []
+           end
+  | Some AsgEmpty =>
+      match o_out ob, o_state ob with
+      | Done, Some s => if ckind_eqb k Pixel && all_zero s then [] else [8]      (* Pixel.empty() stores zeros *)
+      | _, _ => []
+      end
+  | None => []
   end.
 
 Definition step_violations (k : ckind) (r c : nat) (o : op) (before : option arr) (ob : obs) : list nat :=
@@ -919,7 +990,8 @@ Definition step_violations (k : ckind) (r c : nat) (o : op) (before : option arr
          else []
      | _ => []
      end
-  ++ (if negb (is_raise (o_out ob)) && negb (reset_ok k o before (o_state ob)) then [6] else []).
+  ++ (if negb (is_raise (o_out ob)) && negb (reset_ok k o before (o_state ob)) then [6] else [])
+  ++ assign_violations k r c o before ob.
 
 (* [case; step; clause; ...] *)
 Fixpoint case_violations (k : ckind) (r c : nat) (ops : list op) (os : list obs) (before : option arr)
@@ -939,6 +1011,21 @@ Fixpoint violations_from (cs : list ccase) (i : nat) : list nat :=
   end.
 
 Definition violations (cs : list ccase) : list nat := violations_from cs 0.
+
+(* --- the model's own behaviour written as observations: what the judge above sees when the implementation
+   behaves exactly like the model (used to state that the judge accepts the model on EVERY sequence) *)
+Definition obs_of (r : container * outcome) : obs :=
+  {| o_out := snd r; o_state := c_content (fst r); o_shape := pub_shape (fst r); o_dtype := pub_dtype (fst r) |}.
+
+Fixpoint model_obs (tb : tables) (c : container) (ops : list op) : list obs :=
+  match ops with
+  | [] => []
+  | o :: t => let r := step tb c o in obs_of r :: model_obs tb (fst r) t
+  end.
+
+(* the containers a sequence compares with are containers the invariant describes *)
+Definition eq_operands_inv (ops : list op) : bool :=
+  forallb (fun o => match o with OEq o' | OEqRev o' => inv_b o' | _ => true end) ops.
 
 (* ------------------------------------------------------------------------------------------ literals
    compact constructors used by the harness-written case files *)
